@@ -18,6 +18,7 @@ def run(ck, fb):
     r15m(ck, fb)
     r15o(ck, fb)
     r15p(ck, fb)
+    r15q(ck, fb)
     ck.borrow('rules.c12', {'R12q': 'R15n'}, 'a deregistration answered ok must reach the node that holds the instance, or the nodes return different instance sets until - and after - the next reconciliation')
     ck.borrow('rules.c14', {'R14g': 'R15j'}, 'a refused cluster message is a lost registry / view change: the nodes cannot converge on it')
 
@@ -609,3 +610,33 @@ def r15p(ck, fb, R='R15p'):
     M = 'rnacos::naming::cluster::model::'
     float_fields_decode_null(ck, fb, R, [M + 'SyncBatchForReceive', M + 'SnapshotForReceive'], 'cluster sync payload types', 3,
                              'one instance registered with weight=NaN: the owner lists both instances of the batch, nodes 2 and 3 list nothing (3-node run)')
+
+
+def r15q(ck, fb, R='R15q'):
+    ck.rule(R, 'what a node tells a peer arrives in the order it was said: the receiver applies sync requests in the order of their arrival, so the '
+               'requests of ClusteSyncSender to its peer leave one after the other, a retransmission included - the future that sends (and sends '
+               'again) is registered with ctx.wait. As independent futures a registration whose first attempt fails slowly is delivered after the '
+               'batch that removes the instance again, and the peer keeps a copy that nothing ever expires')
+    SS = '<rnacos::naming::cluster::sync_sender::ClusteSyncSender as actix::Handler<rnacos::naming::cluster::model::SyncSenderRequest>>::handle'
+    h = ck.body(SS, R)
+    if not h:
+        return
+    tree = fb.tree(SS)
+    senders = [c for c in tree[1:] if any(y.calls(r'RaftClusterRequestSender::send_request$|::send_request$') for y in [c] + [z for z in tree[1:] if (z.parent or '') == c.name])]
+    ck.floor(R, 'futures of the handler that send to the peer', len(senders), 1)
+    ok = False
+    for (i, j, st, cdef) in h.closures_created():
+        if not any(c.name == cdef for c in senders):
+            continue
+        d = st.get('d')
+        t = Taint(h, local_src=[d] if isinstance(d, int) else [])
+        # directly, or wrapped into another future that awaits it
+        wrappers = [st2.get('d') for (i2, j2, st2, c2) in h.closures_created() if any(t.op_tainted(o) for o in st2['rv'].get('ops', []))]
+        t2 = Taint(h, local_src=[x for x in [d] + wrappers if isinstance(x, int)])
+        for s0 in h.calls(r'ContextFutureSpawner::wait$|AsyncContext::wait$'):
+            if any(t2.op_tainted(a) for a in s0.args):
+                ok = True
+    ck.require(ok, R, 'SyncSenderRequest:sends-are-serialised', h.where(),
+               'the future that sends a sync request to the peer (and retries it) is returned as an ordinary actor future: requests to one peer overtake each '
+               'other - a retransmitted registration arrives after the removal that followed it (peer fails its first request after 600 ms: owner returns '
+               '[], peer returns [10.0.0.9:8080] for ever)', 'registered with ctx.wait')
